@@ -11,7 +11,7 @@ Property the code is supposed to satisfy:
 It must hold {p['quantifier']['text']}.
 Relevant code: {', '.join(p['anchors']['files'])}.
 
-Task: find inputs, operation histories, fault points or interleavings for which the code AS IT IS (unmodified) violates this statement. This tree has already been audited TWICE and about sixty defects were repaired (`git log --grep '^fix:' --stat` in the worktree shows every repair: read it first, do not re-report what is fixed, and do not report the mirror image of a fix unless it really fails). The obvious and the second-order cases hold: look where the earlier audits did not — state that outlives the object it belongs to (caches, indexes, counters, ids that restart), alternative entry points (config load vs API, legacy endpoints, restart), error paths that leave half-updated state, rare but legal inputs (IPv6 zones, IPv4-mapped addresses, letter case, Unicode, trailing dots, empty/maximal values, duplicates), interactions between two features, time (expiry boundaries, DST, clock steps), and concurrency. Read the code carefully and try your hypotheses with small throw-away tests before you conclude.
+Task: find inputs, operation histories, fault points or interleavings for which the code AS IT IS (unmodified) violates this statement. This tree has already been audited THREE times and about eighty defects were repaired (`git log --grep '^fix:' --stat` in the worktree shows every repair: read it first, do not re-report what is fixed, and do not report the mirror image of a fix unless it really fails). The obvious and the second-order cases hold: look where the earlier audits did not — state that outlives the object it belongs to (caches, indexes, counters, ids that restart), alternative entry points (config load vs API, legacy endpoints, restart), error paths that leave half-updated state, rare but legal inputs (IPv6 zones, IPv4-mapped addresses, letter case, Unicode, trailing dots, empty/maximal values, duplicates), interactions between two features, time (expiry boundaries, DST, clock steps), and concurrency. Read the code carefully and try your hypotheses with small throw-away tests before you conclude.
 
 For each genuine violation i you can DEMONSTRATE write into /tmp/hunt-{low}-out/<i>/:
 - demo_test.go: a self-contained in-package Go test (name TestHuntDemo...) that FAILS on the unmodified tree because of the violation and is deterministic (run it 3 times); it must go through the real code (the most public entry point that shows it), not re-implement it;
